@@ -564,6 +564,27 @@ def g_getitem_structured(ctx, rng, i):
             t[idx]
         except Exception:
             pass
+    # separated array indices behind an axis that survives (numpy moves the broadcast axis to the front): rank-4 / rank-5 tensors of every
+    # index-type pattern, the array indices as arrays, lists and masks, separated by a slice or by an Ellipsis that covers an axis
+    from geometer.base import Tensor
+
+    rank = 4 + i % 2
+    shape = tuple(int(x) for x in rng.integers(2, 4, size=rank))
+    tr = int(rng.integers(0, rank + 1))
+    cov = sorted(rng.choice(tr, size=int(rng.integers(0, tr + 1)), replace=False).tolist()) if tr else []
+    t4 = Tensor(gen.coords(rng, shape, 9, "int"), covariant=cov, tensor_rank=tr)
+    a1 = rng.integers(0, shape[1], size=2)
+    a3 = rng.integers(0, shape[3], size=2)
+    m1 = np.zeros(shape[1], dtype=bool)
+    m1[: 2] = True
+    pats = [(slice(None), a1, slice(None), a3), (slice(0, 2), a1.tolist(), slice(None), a3), (slice(None), a1, Ellipsis, a3), (slice(None), m1, slice(None), a3),
+            (slice(None, None, -1), a1, slice(1, None), a3.tolist()), (a1 % shape[0], slice(None), a3 % shape[2], slice(None)), (slice(None), slice(None), a1 % shape[2], a3),
+            (Ellipsis, a1 % shape[-3], slice(None), a3 % shape[-1])]
+    for idx in pats:
+        try:
+            t4[idx]
+        except Exception:
+            pass
 
 
 def _rand_operand(rng, t, kind):
